@@ -154,6 +154,21 @@ def extract(repo: Path) -> Tuple[Dict[str, Any], List[str]]:
             out["skipAsync"], out["skipSync"] = sk
         else:
             problems.append("_lowlevel.analyze_with_blocks: `skip_insns = <a> if is_async else <b>` not found")
+        # how often _check_trickery_available reads the module-level setting before it takes the lock (its fast path)
+        fn = _func(t, "_check_trickery_available")
+        if fn is None:
+            problems.append("_lowlevel._check_trickery_available not found")
+        else:
+            reads = 0
+            seen_lock = False
+            for stmt in fn.body:
+                if isinstance(stmt, ast.With):
+                    seen_lock = True
+                    break
+                reads += sum(1 for n in ast.walk(stmt) if isinstance(n, ast.Name) and n.id == "_can_use_trickery" and isinstance(n.ctx, ast.Load))
+            if not seen_lock:
+                problems.append("_lowlevel._check_trickery_available: no `with _trickery_lock:` statement found")
+            out["trickeryFastPathReads"] = reads
 
     # ---- _lowlevel_cpython_311.py: where the value stack starts (number of localsplus slots) ----
     t311 = parse("_lowlevel_cpython_311.py")
